@@ -930,6 +930,149 @@ def _expand_and_then(B, bi, t, by_path):
     return True
 
 
+def _resolve_closure_local(B, op, depth=0):
+    """(closure body path, local holding the closure value) when the operand is, through moves of uniquely defined locals anywhere in
+    the body, a closure aggregate; else None"""
+    if depth > 8:
+        return None
+    c = op.get("const")
+    if c is not None and "closure" in c:
+        return c["closure"], None
+    pl = op.get("move") or op.get("copy")
+    if pl is None or pl["p"]:
+        return None
+    l = pl["l"]
+    defs = [s_ for bk in B["blocks"] for s_ in bk["stmts"] if s_["k"] == "assign" and s_["lhs"]["l"] == l and not s_["lhs"]["p"]]
+    ncall = sum(1 for bk in B["blocks"] if bk["term"]["k"] == "call" and bk["term"]["dest"]["l"] == l and not bk["term"]["dest"]["p"])
+    if len(defs) != 1 or ncall:
+        return None
+    rv = defs[0]["rv"]
+    if rv["k"] == "agg" and rv.get("ak") == "closure":
+        return rv["closure"], l
+    if rv["k"] == "use":
+        return _resolve_closure_local(B, rv["op"], depth + 1)
+    return None
+
+
+def _expand_call_once(B, bi, t, by_path):
+    """`dest = FnOnce::call_once(f, (a, b))` (also Fn::call / FnMut::call_mut) where f is a closure built in this body (typically handed
+    to a small generic helper that has just been inlined) becomes the closure's body with its parameters bound: what the closure does is
+    then visible in place, in order."""
+    if len(t["args"]) != 2 or t.get("t") is None:
+        return False
+    co = _resolve_closure_local(B, t["args"][0])
+    if co is None or co[0] not in by_path:
+        return False
+    C = by_path[co[0]]
+    if C is B or any(bk["term"]["k"] == "call" and "indirect" not in bk["term"]["func"] and (bk["term"]["func"].get("rpath") or bk["term"]["func"]["path"]) == co[0] for bk in C["blocks"]):
+        return False
+    if _has_loop(C) and _in_cycle(B, bi):
+        return False
+    # the argument tuple, built in the calling block
+    tp = t["args"][1].get("move") or t["args"][1].get("copy")
+    fields = None
+    if tp is not None and not tp["p"]:
+        defs = [s_ for s_ in B["blocks"][bi]["stmts"] if s_["k"] == "assign" and s_["lhs"]["l"] == tp["l"] and not s_["lhs"]["p"]]
+        if len(defs) == 1 and defs[0]["rv"]["k"] == "agg" and defs[0]["rv"].get("ak") == "tuple":
+            fields = defs[0]["rv"]["fields"]
+    elif "const" in t["args"][1]:
+        fields = []
+    if fields is None or C["arg_count"] != 1 + len(fields):
+        return False
+    line = t.get("line", 0)
+    lo = len(B["locals"])
+    bo = len(B["blocks"])
+    B["locals"] = B["locals"] + [dict(l) for l in C["locals"]]
+    _SUB.clear()
+    _POWNER[0] = co[0]
+    body_blocks = _copy_body(B, C, lo, bo, t["dest"], t["t"], line)
+    _POWNER[0] = None
+    B["blocks"] = B["blocks"] + body_blocks
+    blk = B["blocks"][bi]
+    if co[1] is not None:
+        if str(C["locals"][1].get("ty", "")).startswith("&"):
+            blk["stmts"].append({"k": "assign", "lhs": {"l": lo + 1, "p": []}, "rv": {"k": "ref", "place": {"l": co[1], "p": []}, "mut": str(C["locals"][1]["ty"]).startswith("&mut")}, "line": line, "exp": None})
+        else:
+            blk["stmts"].append({"k": "assign", "lhs": {"l": lo + 1, "p": []}, "rv": {"k": "use", "op": {"move": {"l": co[1], "p": []}}}, "line": line, "exp": None})
+    for i, a in enumerate(fields):
+        blk["stmts"].append({"k": "assign", "lhs": {"l": lo + 2 + i, "p": []}, "rv": {"k": "use", "op": a}, "line": line, "exp": None})
+    blk["term"] = {"k": "goto", "t": bo, "line": line, "exp": None, "inlined": co[0]}
+    return True
+
+
+def _expand_try_fold(B, bi, t, by_path, with_acc):
+    """`dest = iter.try_fold(init, |acc, x| body)` / `dest = iter.try_for_each(|x| body)` with a local closure returning a Result becomes
+    the loop it stands for:
+         acc = init; loop { match Iterator::next(&mut *iter) { None => { dest = Ok(acc); break }
+                                                               Some(x) => match body(acc, x) { Ok(a) => acc = a, r => { dest = r; break } } } }
+    so that iterator-combinator loops and `for` loops are the same shape to every engine."""
+    nargs = 3 if with_acc else 2
+    if len(t["args"]) != nargs or t.get("t") is None:
+        return False
+    it_pl = t["args"][0].get("move") or t["args"][0].get("copy")
+    co = _resolve_closure_local(B, t["args"][-1])
+    if it_pl is None or it_pl["p"] or co is None or co[0] not in by_path:
+        return False
+    C = by_path[co[0]]
+    if C is B or C["arg_count"] != (3 if with_acc else 2) or not str(C["locals"][0].get("ty", "")).startswith("std::result::Result<"):
+        return False
+    if _has_loop(C) and _in_cycle(B, bi):
+        return False
+    line = t.get("line", 0)
+    rty = C["locals"][0]["ty"]
+    item_l = 3 if with_acc else 2
+    item_ty = C["locals"][item_l].get("ty", "")
+    opt_ty = "std::option::Option<%s>" % item_ty
+    it_ty = (t.get("arg_tys") or [B["locals"][it_pl["l"]].get("ty", "")])[0]
+    n0 = len(B["locals"])
+    # new scratch locals: reborrow, next() result, its discriminant, closure result, its discriminant, accumulator
+    B["locals"] = B["locals"] + [{"ty": it_ty}, {"ty": opt_ty}, {"ty": "isize"}, {"ty": rty}, {"ty": "isize"}, {"ty": C["locals"][2].get("ty", "") if with_acc else "()"}]
+    RR, NX, D1, R, D2, ACC = n0, n0 + 1, n0 + 2, n0 + 3, n0 + 4, n0 + 5
+    lo = len(B["locals"])
+    B["locals"] = B["locals"] + [dict(l) for l in C["locals"]]
+    bo = len(B["blocks"])
+    HEAD, TEST, DONE, BIND, AFTER, CONT, ERR, UNR, BODY = bo, bo + 1, bo + 2, bo + 3, bo + 4, bo + 5, bo + 6, bo + 7, bo + 8
+    _SUB.clear()
+    _POWNER[0] = co[0]
+    body_blocks = _copy_body(B, C, lo, BODY, {"l": R, "p": []}, AFTER, line)
+    _POWNER[0] = None
+    def A(lhs, rv):
+        return {"k": "assign", "lhs": lhs if isinstance(lhs, dict) else {"l": lhs, "p": []}, "rv": rv, "line": line, "exp": None}
+    def G(tgt):
+        return {"k": "goto", "t": tgt, "line": line, "exp": None}
+    head = {"cleanup": False, "stmts": [A(RR, {"k": "ref", "mut": True, "place": {"l": it_pl["l"], "p": ["deref"]}})],
+            "term": {"k": "call", "func": {"path": "std::iter::Iterator::next", "gargs": [it_ty.replace("&mut ", "", 1)], "local": False, "trait": "std::iter::Iterator", "name": "next", "rpath": None},
+                     "args": [{"move": {"l": RR, "p": []}}], "arg_tys": [it_ty], "dest": {"l": NX, "p": []}, "t": TEST, "unwind": t.get("unwind"), "fn_line": line, "line": line,
+                     "exp": None, "inlined": "try_fold"}}
+    test = {"cleanup": False, "stmts": [A(D1, {"k": "discr", "place": {"l": NX, "p": []}, "of": opt_ty})],
+            "term": {"k": "switch", "discr": {"move": {"l": D1, "p": []}}, "dty": "isize", "vals": ["0", "1"], "tgts": [DONE, BIND], "otherwise": UNR, "line": line, "exp": None}}
+    ok_field = {"move": {"l": ACC, "p": []}} if with_acc else {"const": {"ty": "()", "dbg": "Val(ZeroSized, ())"}}
+    done = {"cleanup": False, "stmts": [A(t["dest"], {"k": "agg", "ak": "adt", "adt": "std::result::Result", "variant": 0, "vname": "Ok", "fnames": ["0"], "active": None, "fields": [ok_field]})],
+            "term": G(t["t"])}
+    bind_stmts = []
+    if co[1] is not None:
+        if str(C["locals"][1].get("ty", "")).startswith("&"):
+            bind_stmts.append(A(lo + 1, {"k": "ref", "place": {"l": co[1], "p": []}, "mut": str(C["locals"][1]["ty"]).startswith("&mut")}))
+        else:
+            bind_stmts.append(A(lo + 1, {"k": "use", "op": {"copy": {"l": co[1], "p": []}}}))
+    if with_acc:
+        bind_stmts.append(A(lo + 2, {"k": "use", "op": {"move": {"l": ACC, "p": []}}}))
+    bind_stmts.append(A(lo + item_l, {"k": "use", "op": {"copy": {"l": NX, "p": [{"dc": 1, "n": "Some"}, {"f": 0, "n": "0", "ty": item_ty, "of": opt_ty}]}}}))
+    bind = {"cleanup": False, "stmts": bind_stmts, "term": G(BODY)}
+    after = {"cleanup": False, "stmts": [A(D2, {"k": "discr", "place": {"l": R, "p": []}, "of": rty})],
+             "term": {"k": "switch", "discr": {"move": {"l": D2, "p": []}}, "dty": "isize", "vals": ["0", "1"], "tgts": [CONT, ERR], "otherwise": UNR, "line": line, "exp": None}}
+    cont_stmts = [A(ACC, {"k": "use", "op": {"move": {"l": R, "p": [{"dc": 0, "n": "Ok"}, {"f": 0, "n": "0", "ty": B["locals"][ACC]["ty"], "of": rty}]}}})] if with_acc else []
+    cont = {"cleanup": False, "stmts": cont_stmts, "term": G(HEAD)}
+    err = {"cleanup": False, "stmts": [A(t["dest"], {"k": "use", "op": {"move": {"l": R, "p": []}}})], "term": G(t["t"])}
+    unr = {"cleanup": False, "stmts": [], "term": {"k": "unreachable", "line": line, "exp": None}}
+    B["blocks"] = B["blocks"] + [head, test, done, bind, after, cont, err, unr] + body_blocks
+    blk = B["blocks"][bi]
+    if with_acc:
+        blk["stmts"].append(A(ACC, {"k": "use", "op": t["args"][1]}))
+    blk["term"] = {"k": "goto", "t": HEAD, "line": line, "exp": None, "inlined": co[0]}
+    return True
+
+
 _GEN_RX = re.compile(r"<(?:'?[A-Za-z_]\w*)(?:, '?[A-Za-z_]\w*)*>")
 
 
@@ -1309,7 +1452,7 @@ def _expand_map(B, bi, t, by_path, adts, kind):
     return True
 
 
-def inline_helpers(facts, is_new, max_rounds=4):
+def inline_helpers(facts, is_new, max_rounds=6):
     """Inline calls to `new helper` functions (local bodies for which is_new(path) holds) into their callers, on
     the raw exported MIR: the callee's locals and blocks are appended (renumbered), arguments become assignments
     to the callee's parameter locals, `return` becomes an assignment of its `_0` to the call's destination and a
@@ -1346,6 +1489,16 @@ def inline_helpers(facts, is_new, max_rounds=4):
                 if cal in ("std::result::Result::<T, E>::map", "std::option::Option::<T>::map") and "::tests::" not in B["path"]:
                     if _expand_map(B, bi, t, by_path, adts, "Result" if "Result" in cal else "Option"):
                         done.append((B["path"], "map"))
+                        changed = True
+                    continue
+                if re.search(r"iter::Iterator::(try_fold|try_for_each)$", t["func"]["path"]) and "::tests::" not in B["path"]:
+                    if _expand_try_fold(B, bi, t, by_path, t["func"]["path"].endswith("try_fold")):
+                        done.append((B["path"], "try_fold"))
+                        changed = True
+                    continue
+                if re.search(r"ops::(FnOnce::call_once|FnMut::call_mut|Fn::call)$", t["func"]["path"]) and "::tests::" not in B["path"]:
+                    if _expand_call_once(B, bi, t, by_path):
+                        done.append((B["path"], "call_once"))
                         changed = True
                     continue
                 if cal == B["path"] or cal not in by_path or not is_new(cal):
@@ -1416,7 +1569,7 @@ class Program:
                 # them keeps the identity it had before the helper was extracted)
                 callers = {}
                 for f_, c_ in self.inlined:
-                    if c_ not in ("map", "and_then", "or_else", "unwrap_or_else"):
+                    if c_ not in ("map", "and_then", "or_else", "unwrap_or_else", "call_once", "try_fold"):
                         callers.setdefault(c_, set()).add(f_)
                 have_paths = {b["path"] for b in facts["bodies"]}
                 cren = {}
